@@ -386,6 +386,9 @@ func (w *walker) forStmt(s *ast.ForStmt, label string, st *state, k func(*state)
 				// the decision that ended it, also when the condition is an attempt helper's result)
 				st = st.clone()
 				w.havoc(st, s.Body, s.Post)
+				// marker: "any number of further trips happened here"; rules that follow a per-trip
+				// discipline treat it as a trip that did what the walked trips did
+				w.emit(st, &Event{Kind: KHavoc, Pos: s.Pos(), Node: s})
 				w.cond(s.Cond, st, func(st *state) { w.finish(st, EndLoopCut) }, func(st *state) { k(st) })
 				return
 			}
